@@ -114,11 +114,11 @@ pub fn check(case: &Case, l: &mut Local) -> Verdict {
     Verdict::Pass { nontrivial: sig >= 2 }
 }
 
-// ---- bounded-exhaustive: every sequence of up to 3 tokens of a 64-token core set, under -, u and v
+// ---- bounded-exhaustive: every sequence of up to 3 tokens of a 71-token core set, under -, u and v
 const CORE: &[&str] = &[
     "a", "(", ")", "(?:", "(?=", "(?!", "(?<=", "(?<!", "(?<n>", "(?i:", "(?-i:", "(?", "[", "]", "[^", "{", "}", "{1}", "{1,}", "{2,1}", "{,1}", "*", "+", "?", "|", "^", "$", ".", "\\b", "\\B",
     "\\1", "\\2", "\\k<n>", "\\k", "\\d", "\\p{L}", "\\p{X}", "\\P", "\\u0061", "\\u", "\\uD83D", "\\x4", "\\c", "\\cA", "\\0", "\\01", "\\8", "\\-", "-", "&&", "--", "\\q{a}", "\\q{ab|c}", ",", ":", "=",
-    "!", "<", ">", "\\", "/", "\\/", "1", "\u{1F600}",
+    "!", "<", ">", "\\", "/", "\\/", "1", "\u{1F600}", "\\q{a|}", "\\q{}", "\\4294967297", "\\47", "7", "(?i-:", "(?<n>a)",
 ];
 
 pub fn core_cases(tier: Tier) -> Vec<Case> {
@@ -209,7 +209,7 @@ pub fn run(ctx: &Ctx) -> i32 {
     ctx.run_variant(&V_DUP, ctx.scale(300_000, 4_000_000));
     ctx.finish(
         "exploration",
-        "patterns of 65534 and 65535 groups / loops (the documented limits) must compile; (bounded-exhaustive) EVERY sequence of up to 3 tokens from a 64-token core (all group openers, brackets, quantifier shapes incl. malformed ones, anchors, the escape families incl. truncated ones, v-mode operators, \\q, punctuation) under -, u and v: 800k patterns (thorough: plus every quadruple over the first 40 tokens, 7.7M); token soup (1-10 fragments from ~230 syntax fragments: every bracket, quantifier shape, escape family, group opener incl. modifiers and names, v-mode operators and reserved punctuators, property names valid and invalid) x 24 flag sets; valid patterns printed for one mode and compiled under another; single-edit mutations of valid patterns; random placements of groups named a/b (legal and illegal duplicates) with \\k references; a curated list of ~150 early-error cases from the specification. Oracle: the reference model's parser (ES2025 grammar + Annex B + all static early errors), whose accept/reject agrees with V8 on 200k such strings (modifiers aside) and is re-checked against a frozen V8 corpus on every run. Both directions are judged. Non-trivial = at least two syntax-significant characters; classes report the accept/reject balance.",
+        "patterns of 65534 and 65535 groups / loops (the documented limits) must compile; (bounded-exhaustive) EVERY sequence of up to 3 tokens from a 71-token core (all group openers, brackets, quantifier shapes incl. malformed ones, anchors, the escape families incl. truncated ones, v-mode operators, \\q, punctuation) under -, u and v: 800k patterns (thorough: plus every quadruple over the first 40 tokens, 7.7M); token soup (1-10 fragments from ~230 syntax fragments: every bracket, quantifier shape, escape family, group opener incl. modifiers and names, v-mode operators and reserved punctuators, property names valid and invalid) x 24 flag sets; valid patterns printed for one mode and compiled under another; single-edit mutations of valid patterns; random placements of groups named a/b (legal and illegal duplicates) with \\k references; a curated list of ~150 early-error cases from the specification. Oracle: the reference model's parser (ES2025 grammar + Annex B + all static early errors), whose accept/reject agrees with V8 on 200k such strings (modifiers aside) and is re-checked against a frozen V8 corpus on every run. Both directions are judged. Non-trivial = at least two syntax-significant characters; classes report the accept/reject balance.",
         &["esref parser is the trusted base (validated against V8 for legacy/u/v; modifiers and duplicate names by spec reading)", "property names: the set V8/ICU 78 (Unicode 17) accepts, exported to oracle/v8_names.tsv"],
     )
 }
